@@ -31,11 +31,12 @@ ATTR_NAMES = sorted(set(a[0] for a in ATTR_SAMPLES)) + [
     "Key Value Present", "Key Value Location", "Bogus Attribute"]
 
 # attribute name -> KMIP 2.0 tag name in kmip.core.enums.Tags (for AttributeReference)
-REF_TAGS = ["NAME", "OBJECT_GROUP", "APPLICATION_SPECIFIC_INFORMATION", "CRYPTOGRAPHIC_ALGORITHM",
-            "CRYPTOGRAPHIC_LENGTH", "CRYPTOGRAPHIC_USAGE_MASK", "STATE", "SENSITIVE",
-            "OPERATION_POLICY_NAME", "UNIQUE_IDENTIFIER", "OBJECT_TYPE", "INITIAL_DATE",
-            "CONTACT_INFORMATION", "CERTIFICATE_TYPE", "LINK", "DIGEST", "LEASE_TIME",
-            "CRYPTOGRAPHIC_PARAMETERS", "ACTIVATION_DATE", "FRESH", "COMMENT", "DESCRIPTION"]
+REF_NAMES = ["Name", "Object Group", "Application Specific Information", "Cryptographic Algorithm",
+             "Cryptographic Length", "Cryptographic Usage Mask", "State", "Sensitive",
+             "Operation Policy Name", "Unique Identifier", "Object Type", "Initial Date",
+             "Contact Information", "Certificate Type", "Link", "Digest", "Lease Time",
+             "Cryptographic Parameters", "Activation Date", "Fresh", "Comment", "Description",
+             "x-custom", "Bogus Attribute"]
 
 MODES = ["CBC", "ECB", "PCBC", "CFB", "OFB", "CTR", "CMAC", "CCM", "GCM", "CBC_MAC", "XTS",
          "AES_KEY_WRAP_PADDING", "NIST_KEY_WRAP", "X9_102_AESKW", "X9_102_TDKW", "X9_102_AKW1",
@@ -227,8 +228,8 @@ def attr_menu(uid, v):
         add("ModifyAttribute2/asi-existing", {"op": "ModifyAttribute", "uid": uid, "cur": ["Application Specific Information", {"ns": "ns1", "data": "d-SymmetricKey"}],
                                                "new": ["Application Specific Information", {"ns": "ns1", "data": "zz"}]})
         add("ModifyAttribute2/cur-other-kind", {"op": "ModifyAttribute", "uid": uid, "cur": ["Object Group", "g1"], "new": ["Name", "renamed"]})
-        for t in REF_TAGS:
-            add("DeleteAttribute2/ref-" + t, {"op": "DeleteAttribute", "uid": uid, "ref": {"tag": t}})
+        for t in REF_NAMES:
+            add("DeleteAttribute2/ref-" + t, {"op": "DeleteAttribute", "uid": uid, "ref": {"name": t}})
         add("DeleteAttribute2/neither", {"op": "DeleteAttribute", "uid": uid})
     else:
         for a in ATTR_SAMPLES:
@@ -264,7 +265,7 @@ def store_menu(idx, v):
         if tuple(v) >= (2, 0):
             add("SetAttribute/uid-" + kind, {"op": "SetAttribute", "uid": u, "new": ["Sensitive", True]})
             add("ModifyAttribute2/uid-" + kind, {"op": "ModifyAttribute", "uid": u, "new": ["Sensitive", True]})
-            add("DeleteAttribute2/uid-" + kind, {"op": "DeleteAttribute", "uid": u, "ref": {"tag": "NAME"}})
+            add("DeleteAttribute2/uid-" + kind, {"op": "DeleteAttribute", "uid": u, "ref": {"name": "Name"}})
         else:
             add("ModifyAttribute/uid-" + kind, {"op": "ModifyAttribute", "uid": u, "attr": ["Name", "zz", 0]})
             add("DeleteAttribute/uid-" + kind, {"op": "DeleteAttribute", "uid": u, "name": "Name", "index": 0})
